@@ -463,6 +463,13 @@ var vC16Cases = []vC16Case{
 		all := vC16FamilyPointers(d.Families())
 		return all[len(all)-vC16Min(n, len(all)):]
 	}},
+	{"Cnt is .Families | Length; .Individuals | { p: .Pointer, n: Cnt }", func(d *gedcom.Document, n int, lit string) interface{} {
+		out := []map[string]interface{}{}
+		for _, i := range d.Individuals() {
+			out = append(out, map[string]interface{}{"p": i.Pointer(), "n": len(i.Families())})
+		}
+		return out
+	}},
 	{".Individuals | NodesWithTagPath(\"BIRT\", \"DATE\")", func(d *gedcom.Document, n int, lit string) interface{} {
 		out := gedcom.Nodes{}
 		for _, i := range d.Individuals() {
